@@ -29,16 +29,28 @@ import (
 // Administrator delays are shrunk to 2 / 1 momentums.
 
 const (
-	blTssPub   = "AsAQx1M3LVXCuozDOqO5b9adj/PItYgwZFG/xTDBiZzT" // the key pair the repository's bridge tests use
-	blTssPriv  = "tuSwrTEUyJI1/3y5J8L8DSjzT/AQG2IK3JG+93qhhhI="
-	blNetClass = uint32(2)
-	blNetChain = uint32(123)
-	blNetAddr  = "0x323b5d4c32345ced77393b3530b1eed0f346429d"
-	blTokAddr  = "0x5fbdb2315678afecb367f032d93f642f64180aa3"
-	blEvmDest  = "0xb794f5ea0ba39494ce839613fffba74279579268"
-	blDelay    = uint32(2) // redeem delay of the pair, in momentums
-	blAdmin    = 4         // ops.Users index of the bridge / liquidity administrator (User5)
+	blTssPub        = "AsAQx1M3LVXCuozDOqO5b9adj/PItYgwZFG/xTDBiZzT" // the key pair the repository's bridge tests use
+	blTssPriv       = "tuSwrTEUyJI1/3y5J8L8DSjzT/AQG2IK3JG+93qhhhI="
+	blNetClass      = uint32(2)
+	blNetChain      = uint32(123)
+	blNetAddr       = "0x323b5d4c32345ced77393b3530b1eed0f346429d"
+	blTokAddr       = "0x5fbdb2315678afecb367f032d93f642f64180aa3"
+	blEvmDest       = "0xb794f5ea0ba39494ce839613fffba74279579268"
+	blTokAddrLocked = "0x5bbbb2315678afecb367f032d93f642f64180aa3"
+	blDelay         = uint32(2) // redeem delay of the pair, in momentums
+	blAdmin         = 4         // ops.Users index of the bridge / liquidity administrator (User5)
 )
+
+// lockedToken: the token of the mis-configured pair (set by BLSetup; the same in every execution of a worker)
+var lockedToken types.ZenonTokenStandard
+
+func pendingFor(n *vnode.Node, a types.Address) []types.Hash {
+	hs, err := n.Chain.GetFrontierMomentumStore().GetAccountMailbox(a).GetUnreceivedAccountBlockHashes(16)
+	if err != nil {
+		panic(err)
+	}
+	return hs
+}
 
 func blSign(msg []byte) string {
 	raw, err := base64.StdEncoding.DecodeString(blTssPriv)
@@ -141,6 +153,20 @@ func initBridgeOps() {
 		twice(types.BridgeContract, definition.ABIBridge.PackMethodPanic(definition.SetTokenPairMethod, blNetClass, blNetChain, znn, blTokAddr, true, true, false, big.NewInt(100), uint32(15), blDelay, "{}"), 1)
 		send(ops.Users[0].Address, types.BridgeContract, znn, big.NewInt(100000), definition.ABIBridge.PackMethodPanic(definition.WrapTokenMethodName, blNetClass, blNetChain, blEvmDest))
 		step(1)
+		// an administrator mistake the contract does not prevent: a pair flagged Owned for a token the bridge neither owns nor
+		// may burn (user 2's non-mintable, non-burnable token). Wrapping it makes the bridge ask the token contract for a burn
+		// that fails: a failing contract-to-contract call that carries an amount
+		lt := send(ops.Users[1].Address, types.TokenContract, znn, new(big.Int).Set(constants.TokenIssueAmount),
+			definition.ABIToken.PackMethodPanic(definition.IssueMethodName, "c10-locked", "LOCK", "", big.NewInt(500000), big.NewInt(500000), uint8(0), false, false, false))
+		step(2)
+		if lt != nil {
+			lockedToken = types.NewZenonTokenStandard(lt.Hash.Bytes())
+			for _, h := range pendingFor(n, ops.Users[1].Address) {
+				n.Receive(ops.Users[1].Address, h)
+			}
+			step(1)
+			twice(types.BridgeContract, definition.ABIBridge.PackMethodPanic(definition.SetTokenPairMethod, blNetClass, blNetChain, lockedToken, blTokAddrLocked, true, true, true, big.NewInt(10), uint32(100), blDelay, "{}"), 1)
+		}
 		twice(types.LiquidityContract, definition.ABILiquidity.PackMethodPanic(definition.NominateGuardiansMethodName, guardians), 2)
 		twice(types.LiquidityContract, definition.ABILiquidity.PackMethodPanic(definition.SetTokenTupleMethodName,
 			[]string{znn.String(), types.QsrTokenStandard.String()}, []uint32{5000, 5000}, []uint32{5000, 5000}, []*big.Int{big.NewInt(1000), big.NewInt(10)}), 1)
@@ -194,6 +220,11 @@ func initBridgeOps() {
 		r := unwrapReqs[o.B]
 		return blCall(n, ops.Users[o.A].Address, types.BridgeContract, types.ZnnTokenStandard, big.NewInt(0),
 			definition.ABIBridge.PackMethodPanic(definition.RedeemUnwrapMethodName, r.tx, r.log))
+	}
+	// WrapLocked: the holder of the mis-configured token wraps V units of it
+	ops.Extra["WrapLocked"] = func(n *vnode.Node, o ops.Op) string {
+		return blCall(n, ops.Users[o.A].Address, types.BridgeContract, lockedToken, big.NewInt(o.V),
+			definition.ABIBridge.PackMethodPanic(definition.WrapTokenMethodName, blNetClass, blNetChain, blEvmDest))
 	}
 	// RevokeUnwrap: A (the administrator or not) revokes request B
 	ops.Extra["RevokeUnwrap"] = func(n *vnode.Node, o ops.Op) string {
@@ -474,6 +505,7 @@ func bridgeFamilies() []family {
 		{K: "Redeem", A: 3, B: 2},             // a request nobody made
 		{K: "RevokeUnwrap", A: blAdmin, B: 0}, // administrator
 		{K: "RevokeUnwrap", A: 3, B: 1},       // not the administrator
+		{K: "WrapLocked", A: 1, V: 500},       // a wrap whose burn the token contract refuses (contract-to-contract failure with an amount)
 	}}
 	br.bases = []hx.Base{
 		{Name: "bridge-unwrap/initialised", Prefix: setup},
